@@ -217,69 +217,10 @@ func checkC11(c *Ctx) Meta {
 	c09TransRule = "C09-TRANS"
 	c.Rule("C11-STATE", "ready or registered is derived from the recorded progress: OpenDB treats a space as unfinished exactly when map B's checkpoint says so (not from the presence of companion files)", 1)
 	checkMapALoadedByProgressOnly(c, "C11-STATE")
+	checkCheckpointCodec(c, "C11-STATE")
 	c.Rule("C11-HEADER", "on the open path a comparison guarding success relates data read from the file header (HashMap.pk/pkHash/bl) to the requested key and bit length (non-vacuous header-vs-name check); loadHashMap validates file code, version, key hash and map type", 7)
 
-	// ---- WMC
-	allowed := map[string]destroyRule{
-		"(*poc/engine/massdb/massdb.v1.MassDBV1).Delete$2|os.Remove": {why: "delete path: the DB's own files",
-			argHas: func(fn *ssa.Function, s *slice) bool {
-				return s.hasField(pkgMassDBV1+".MassDBV1", "filePathA") || s.hasField(pkgMassDBV1+".MassDBV1", "filePathB")
-			}},
-		"(*poc/engine/massdb/massdb.v1.MassDBV1).executePlot|os.Remove": {why: "map A after plot completion",
-			argHas: func(fn *ssa.Function, s *slice) bool { return s.hasField(pkgMassDBV1+".MassDBV1", "filePathA") }},
-		"poc/engine/massdb/massdb.v1.createMapFile$1|os.Remove": {why: "cleanup of the file just created",
-			argHas: func(fn *ssa.Function, s *slice) bool {
-				return s.hasParam(outermost(fn), "filePath") && createdInSameFunc(outermost(fn))
-			}},
-		"poc/engine/spacekeeper/capacity.upgradeMassDBFile$1|os.Rename": {why: "legacy name upgrade (rename, content untouched)",
-			argHas: func(fn *ssa.Function, s *slice) bool { return true }},
-		"(*api.Server).ExportKeystore|os.OpenFile(O_TRUNC)": {why: "keystore JSON export file, name ends in .json",
-			argHas: func(fn *ssa.Function, s *slice) bool { return s.hasGlobal(repoMod+"/api", "keystoreFileNamePrefix") }},
-		"cmd/massminercli/cmd.glob..func6|io/ioutil.WriteFile": {why: "CLI client tool (separate binary), writes its own output file"},
-	}
-	seenAllowed := map[string]bool{}
-	fns := []*ssa.Function{}
-	for fn := range c.AllFuncs {
-		fns = append(fns, fn)
-	}
-	sort.Slice(fns, func(i, j int) bool { return FuncName(fns[i]) < FuncName(fns[j]) })
-	for _, fn := range fns {
-		if strings.HasPrefix(pkgOf(fn), repoMod+"/api/proto") {
-			continue
-		}
-		allInstrs(fn, func(in ssa.Instruction) {
-			op, ok := isDestructiveFileOp(in)
-			if !ok {
-				return
-			}
-			name := FuncName(fn)
-			if strings.HasPrefix(pkgOf(fn), repoMod+"/cmd/massminercli") {
-				// separate client binary: it has no access to the miner's plot directories by code path
-				c.OK("C11-WMC", "cli:"+name+"|"+op, c.Pos(in.Pos()), "client binary, outside the miner process")
-				return
-			}
-			key := name + "|" + op
-			rule, isAllowed := allowed[key]
-			if !isAllowed {
-				c.Bad("C11-WMC", key, c.Pos(in.Pos()), "destructive file operation "+op+" in "+name+" is not in the who-may-destroy table: only the delete path, plot completion, create-failure cleanup, legacy rename and keystore export may remove, rename or truncate files")
-				return
-			}
-			seenAllowed[key] = true
-			args := in.(ssa.CallInstruction).Common().Args
-			if rule.argHas != nil && len(args) > 0 {
-				if !rule.argHas(fn, backSlice(args[0])) {
-					c.Bad("C11-WMC", key, c.Pos(in.Pos()), "the path handed to "+op+" does not derive from "+rule.why)
-					return
-				}
-			}
-			c.OK("C11-WMC", key, c.Pos(in.Pos()), rule.why)
-		})
-	}
-	for k := range allowed {
-		if !seenAllowed[k] && !strings.HasPrefix(k, "cmd/") {
-			c.Note("who-may-destroy entry %s no longer present in the tree (fewer destructive sites than the table allows)", k)
-		}
-	}
+	checkWhoMayDestroy(c, "C11-WMC")
 
 	// ---- REACH: who reaches MassDB.Delete
 	for _, spec := range []struct{ pkg, label string }{{pkgCapacity, "capacity"}, {pkgSkchia, "skchia"}} {
@@ -881,5 +822,146 @@ func intBits(b *types.Basic) int {
 		return 32
 	default:
 		return 64
+	}
+}
+
+
+// checkWhoMayDestroy: the frozen who-may-destroy table over the whole repository (shared by C11 and,
+// as "nobody removes the wallet store", by C19).
+func checkWhoMayDestroy(c *Ctx, ruleID string) {
+	// ---- WMC
+	allowed := map[string]destroyRule{
+		"(*poc/engine/massdb/massdb.v1.MassDBV1).Delete$2|os.Remove": {why: "delete path: the DB's own files",
+			argHas: func(fn *ssa.Function, s *slice) bool {
+				return s.hasField(pkgMassDBV1+".MassDBV1", "filePathA") || s.hasField(pkgMassDBV1+".MassDBV1", "filePathB")
+			}},
+		"(*poc/engine/massdb/massdb.v1.MassDBV1).executePlot|os.Remove": {why: "map A after plot completion",
+			argHas: func(fn *ssa.Function, s *slice) bool { return s.hasField(pkgMassDBV1+".MassDBV1", "filePathA") }},
+		"poc/engine/massdb/massdb.v1.createMapFile$1|os.Remove": {why: "cleanup of the file just created",
+			argHas: func(fn *ssa.Function, s *slice) bool {
+				return s.hasParam(outermost(fn), "filePath") && createdInSameFunc(outermost(fn))
+			}},
+		"poc/engine/spacekeeper/capacity.upgradeMassDBFile$1|os.Rename": {why: "legacy name upgrade (rename, content untouched)",
+			argHas: func(fn *ssa.Function, s *slice) bool { return true }},
+		"(*api.Server).ExportKeystore|os.OpenFile(O_TRUNC)": {why: "keystore JSON export file, name ends in .json",
+			argHas: func(fn *ssa.Function, s *slice) bool { return s.hasGlobal(repoMod+"/api", "keystoreFileNamePrefix") }},
+		"cmd/massminercli/cmd.glob..func6|io/ioutil.WriteFile": {why: "CLI client tool (separate binary), writes its own output file"},
+	}
+	seenAllowed := map[string]bool{}
+	fns := []*ssa.Function{}
+	for fn := range c.AllFuncs {
+		fns = append(fns, fn)
+	}
+	sort.Slice(fns, func(i, j int) bool { return FuncName(fns[i]) < FuncName(fns[j]) })
+	for _, fn := range fns {
+		if strings.HasPrefix(pkgOf(fn), repoMod+"/api/proto") {
+			continue
+		}
+		allInstrs(fn, func(in ssa.Instruction) {
+			op, ok := isDestructiveFileOp(in)
+			if !ok {
+				return
+			}
+			name := FuncName(fn)
+			if strings.HasPrefix(pkgOf(fn), repoMod+"/cmd/massminercli") {
+				// separate client binary: it has no access to the miner's plot directories by code path
+				c.OK(ruleID, "cli:"+name+"|"+op, c.Pos(in.Pos()), "client binary, outside the miner process")
+				return
+			}
+			key := name + "|" + op
+			dr, isAllowed := allowed[key]
+			if !isAllowed {
+				c.Bad(ruleID, key, c.Pos(in.Pos()), "destructive file operation "+op+" in "+name+" is not in the who-may-destroy table: only the delete path, plot completion, create-failure cleanup, legacy rename and keystore export may remove, rename or truncate files")
+				return
+			}
+			seenAllowed[key] = true
+			args := in.(ssa.CallInstruction).Common().Args
+			if dr.argHas != nil && len(args) > 0 {
+				if !dr.argHas(fn, backSlice(args[0])) {
+					c.Bad(ruleID, key, c.Pos(in.Pos()), "the path handed to "+op+" does not derive from "+dr.why)
+					return
+				}
+			}
+			c.OK(ruleID, key, c.Pos(in.Pos()), dr.why)
+		})
+	}
+	for k := range allowed {
+		if !seenAllowed[k] && !strings.HasPrefix(k, "cmd/") {
+			c.Note("who-may-destroy entry %s no longer present in the tree (fewer destructive sites than the table allows)", k)
+		}
+	}
+
+}
+
+// checkCheckpointCodec: the recorded progress is read back with the width it was written with: the
+// header's checkpoint is written by PutUint64 and every decode that feeds HashMap.checkpoint (or the
+// result of ReadCheckpoint) is Uint64 of the same byte order. A 32-bit decode reads 0 for every
+// checkpoint that is a multiple of 2^32 — a complete plot of bit length 34+ comes up registered at 0 %.
+func checkCheckpointCodec(c *Ctx, rule string) {
+	key := "checkpoint:decoded-with-the-width-it-was-written"
+	wr := c.MustFn(rule, "poc/engine/massdb/massdb.v1", "(*HashMap).UpdateCheckpoint")
+	if wr == nil {
+		return
+	}
+	codecCalls := func(s *slice) []string {
+		var out []string
+		for v := range s.vals {
+			if cl, ok := v.(*ssa.Call); ok && strings.Contains(calleeID(cl), "encoding/binary.") {
+				out = append(out, shortID(calleeID(cl)))
+			}
+		}
+		sort.Strings(out)
+		return out
+	}
+	// writer: the Put call fed by the checkpoint field
+	wWidth := ""
+	allInstrs(wr, func(in ssa.Instruction) {
+		cl, ok := in.(*ssa.Call)
+		if !ok || !strings.Contains(calleeID(cl), "encoding/binary.") || !strings.Contains(callName(cl), "PutUint") {
+			return
+		}
+		if backSlice(cl.Call.Args[len(cl.Call.Args)-1]).hasField(tHashMap, "checkpoint") {
+			wWidth = strings.TrimPrefix(callName(cl), "Put") + "@" + strings.TrimSuffix(shortID(calleeID(cl)), "."+callName(cl))
+		}
+	})
+	if wWidth == "" {
+		c.Bad(rule, key, c.Pos(wr.Pos()), "reason=anchor-missing: UpdateCheckpoint no longer encodes HashMap.checkpoint with encoding/binary")
+		return
+	}
+	n := 0
+	var bad []string
+	check := func(fn *ssa.Function, v ssa.Value, what string, pos token.Pos) {
+		for _, id := range codecCalls(backSlice(v)) {
+			i := strings.LastIndex(id, ".")
+			got := id[i+1:] + "@" + id[:i]
+			n++
+			if got != wWidth {
+				bad = append(bad, fmt.Sprintf("%s at %s decodes with %s, the writer uses Put%s", what, c.Pos(pos), id, strings.Replace(wWidth, "@", " of ", 1)))
+			}
+		}
+	}
+	for fn := range c.AllFuncs {
+		if pkgOf(fn) != pkgMassDBV1 {
+			continue
+		}
+		for _, a := range fieldAccesses(fn) {
+			if a.Kind == "store" && a.Type == tHashMap && a.Field == "checkpoint" {
+				check(fn, a.In.(*ssa.Store).Val, "the checkpoint loaded in "+fn.Name(), a.In.Pos())
+			}
+		}
+	}
+	if rd := c.Fn("poc/engine/massdb/massdb.v1", "(*HashMap).ReadCheckpoint"); rd != nil {
+		for _, ret := range returnsOf(rd) {
+			check(rd, ret.Results[0], "ReadCheckpoint", ret.Pos())
+		}
+	}
+	sort.Strings(bad)
+	switch {
+	case len(bad) > 0:
+		c.Bad(rule, key, "", strings.Join(bad, "; ")+": progress recorded as 2^k (k >= 32) reads back as 0, so a complete plot is taken for an empty one and plotted again beside it")
+	case n == 0:
+		c.Bad(rule, key, c.Pos(wr.Pos()), "reason=anchor-missing: no decode of the header checkpoint found")
+	default:
+		c.OK(rule, key, c.Pos(wr.Pos()), fmt.Sprintf("%d decode(s) of the checkpoint, all %s like the writer", n, strings.Replace(wWidth, "@", " of ", 1)))
 	}
 }
